@@ -455,7 +455,7 @@ fn corpus_fixpoints(ctx: &mut Ctx) {
         ctx.report("corpus-fixpoint", v, json!({"file": name}));
         if i != 2 {
             // chunked decode of the whole file, and iterator rows == parse_grid rows
-            let plan = ReaderPlan { chunks: vec![7, 1, 64, 3], interrupt_every: 5, fail_at: None, fail_forever: false, fail_every: 0 };
+            let plan = ReaderPlan { chunks: vec![7, 1, 64, 3], interrupt_every: 5, fail_at: None, fail_forever: false, fail_every: 0, fault_kind: 0 };
             ctx.rec.evals += 1;
             let v = check_chunking(bytes, &plan, &mut rec);
             ctx.report("corpus-chunking", v, json!({"file": name}));
@@ -554,7 +554,7 @@ pub fn replay(kind: &str, case: &J, rec: &mut Rec) -> Verdict {
                     zinc_fixed_point(text, rec)
                 }
             } else {
-                check_chunking(bytes, &ReaderPlan { chunks: vec![7, 1, 64, 3], interrupt_every: 5, fail_at: None, fail_forever: false, fail_every: 0 }, rec)
+                check_chunking(bytes, &ReaderPlan { chunks: vec![7, 1, 64, 3], interrupt_every: 5, fail_at: None, fail_forever: false, fail_every: 0, fault_kind: 0 }, rec)
             }
         }
         _ => Verdict::fail("infra:unknown-kind", kind),
